@@ -29,6 +29,7 @@ import types
 
 FAULTS = ['PortReadError', 'Exception', 'OSError', 'TimeoutError', 'SkipRead']
 SETTLE_ROUNDS = 400
+STUCK_S = 120.0        # VIRTUAL seconds after which an awaited pass / API call counts as stuck (drivers have zero latency)
 
 
 def canon(v):
@@ -269,6 +270,22 @@ class Env:
                               bool(p in self.main._ports_with_read_error._set)]
         return st
 
+    async def bounded(self, coro, limit=STUCK_S):
+        """await coro for at most `limit` VIRTUAL seconds -> ('ok', result) | ('exc', exception) | ('stuck', None).
+        A pass that waits for ever (e.g. in `while self._reading: await asyncio.sleep(1)` behind a flag that a failed read left
+        set) makes virtual time run away; the caller gets 'stuck' instead of never returning."""
+        t = asyncio.ensure_future(coro)
+        done, _ = await asyncio.wait({t}, timeout=limit)
+        if not done:
+            t.cancel()
+            await asyncio.wait({t}, timeout=5)
+            return 'stuck', None
+        if t.cancelled():
+            return 'exc', asyncio.CancelledError()
+        if t.exception() is not None:
+            return 'exc', t.exception()
+        return 'ok', t.result()
+
     async def run_async(self, sc, extra=None):
         cp, main = self.core_ports, self.main
         self.reset()
@@ -294,7 +311,7 @@ class Env:
             await self.settle()
         for p in ports:
             p._pending_save = False
-        out = {'ok': True, 'unsettled': []}
+        out = {'ok': True, 'unsettled': [], 'stuck': []}
         self.rec = rec = []
         out['init'] = self.state()
         out['init_last_sec'] = main._last_time
@@ -314,10 +331,11 @@ class Env:
                         self.log(['set', pid_, v_])
                     pending_sets = []
                     self.cur_origin = 'tick'
-                    try:
-                        await main.update()
-                    except Exception:  # noqa: BLE001  (update_loop logs and carries on)
-                        pass
+                    how, _r = await self.bounded(main.update())     # an exception: update_loop logs it and carries on
+                    if how == 'stuck':
+                        self.log(['pass_stuck', 'tick'])
+                        out['stuck'].append({'step': si, 'what': 'the polling pass of this tick did not finish within %d '
+                                                                 'virtual seconds' % STUCK_S})
                 elif op == 'set':
                     pending_sets.append((st[1], st[2]))
                 elif op == 'fault':
@@ -325,7 +343,13 @@ class Env:
                     p.c15_mode.update(st[2])
                 elif op == 'api':
                     self.cur_origin = 'api'
-                    r = await self.api_write(st[1], st[2])
+                    how, r = await self.bounded(self.api_write(st[1], st[2]))
+                    if how != 'ok':
+                        r = 'stuck' if how == 'stuck' else 'raised:' + type(r).__name__
+                    if how == 'stuck':
+                        self.log(['pass_stuck', 'api'])
+                        out['stuck'].append({'step': si, 'what': 'PATCH /ports/%s/value did not return within %d virtual '
+                                                                 'seconds' % (st[1], STUCK_S)})
                     self.log(['api', st[1], st[2], r])
                     api_results.append([si, st[1], st[2], r])
                 elif extra is not None:
@@ -337,6 +361,8 @@ class Env:
                     if b not in out['unsettled']:
                         out['unsettled'].append(b)
                 states.append(self.state())
+                if out['stuck']:
+                    break          # the system is wedged; what follows says nothing new
         finally:
             self.rec = None
             for p in list(cp.get_all()):
@@ -366,8 +392,11 @@ class Env:
 
     def run(self, sc, extra=None):
         from harness.common import vloop
+        budget = sum(st[1] for st in sc['steps'] if st[0] == 'tick') / 1000.0 + (STUCK_S + 10) * (len(sc['steps']) + 10)
         try:
-            return vloop.run(self.run_async(sc, extra))
+            return vloop.run(asyncio.wait_for(self.run_async(sc, extra), timeout=budget))
+        except asyncio.TimeoutError:
+            return {'ok': False, 'error': 'scenario did not finish within its virtual-time budget of %d s' % budget}
         except Exception as e:  # noqa: BLE001
             import traceback
             return {'ok': False, 'error': '%s: %s' % (type(e).__name__, e), 'trace': traceback.format_exc()[-1500:]}
@@ -517,7 +546,12 @@ def pair(env, sc):
         res['error'] = fr.get('error') or rr.get('error')
         res['trace'] = fr.get('trace') or rr.get('trace')
         return res
-    d = diff_views(healthy_view(fr, H), healthy_view(rr, H))
+    d = None
+    if bool(fr.get('stuck')) != bool(rr.get('stuck')):
+        # every scripted fault is a *raising* fault (in scope); scripted hangs exist only in `probes`
+        d = ('pass-stuck', {'with_faulty_ports': fr.get('stuck'), 'without': rr.get('stuck')})
+    if d is None:
+        d = diff_views(healthy_view(fr, H), healthy_view(rr, H))
     if d is None:
         # a healthy port (or a pass) still busy after a step, in one run only
         ua = sorted(b for b in fr['unsettled'] if b in H or b == '*')
@@ -715,7 +749,12 @@ def main(argv):
         if mode == 'run':
             res = [env.run(sc) for sc in data]
         elif mode == 'pairs':
-            res = [pair(env, sc) for sc in data]
+            # one line per finished scenario, so that a wall-clock timeout of the caller loses only the scenario that hangs
+            with open(outp + 'l', 'w') as f:
+                for sc in data:
+                    f.write(json.dumps(pair(env, sc)) + '\n')
+                    f.flush()
+            return
         elif mode == 'shrink':
             small, used = shrink(env, data)
             pr = pair(env, small)
